@@ -9,6 +9,7 @@ Tie:    the real mapper is run on (tight spec, loose spec) pairs for ENERGY, LAT
 from __future__ import annotations
 
 import copy
+import json
 
 from harness.core import Ctx
 from harness import mapperlib as ML
@@ -22,7 +23,7 @@ REL = 2e-5
 METRICS = ["ENERGY", "LATENCY", "ENERGY_DELAY_PRODUCT"]
 
 
-def relaxations(rng, base):
+def relaxations(rng, base, small=False):
     """Yield (name, tight (params, knobs), loose (params, knobs)) pairs derived from a base spec."""
     out = []
     p = copy.deepcopy(base)
@@ -48,6 +49,10 @@ def relaxations(rng, base):
     # 4 removing loop-bound constraints
     t = copy.deepcopy(p)
     t["fanout"] = rng.choice([2, 4]); t["fanout_at"] = rng.choice(["glb", "mac"])
+    if small:  # quick tier: spatial exploration of fused 3-level specs takes a minute per mapper run
+        t["levels"] = 2
+        if t["workload"]["kind"] == "matmuls":
+            t["workload"]["N_EINSUMS"] = 1
     rv = "m" if t["workload"]["kind"] == "matmuls" else rng.choice(["a", "b", "c"])
     t["lb_expr"] = rng.choice([f"~{rv}", rv, "All"])
     t["lb_op"], t["lb_val"] = rng.choice([("==", 1), ("<=", 2), ("==", 2), ("product<=", 2)])
@@ -63,24 +68,32 @@ def relaxations(rng, base):
     # 6 lower min_usage
     t = copy.deepcopy(p)
     t["fanout"] = rng.choice([2, 4]); t["fanout_at"] = rng.choice(["glb", "mac"])
+    if small:
+        t["levels"] = 2
+        if t["workload"]["kind"] == "matmuls":
+            t["workload"]["N_EINSUMS"] = 1
     t["min_usage"] = rng.choice([1, 0.5])
     l = copy.deepcopy(t); l["min_usage"] = 0
     out.append(("lower-min-usage", (t, {}), (l, {})))
     # 7 imperfect factorisation: rank sizes with few divisors and a tight buffer, where imperfect tiles matter
     t = copy.deepcopy(p)
     if t["workload"]["kind"] == "matmuls":
-        t["workload"].update(M=rng.choice([5, 7, 9, 10]), KN=rng.choice([5, 6, 7]))
+        t["workload"].update(M=rng.choice([5, 7, 9]), KN=rng.choice([3, 5, 6]))
         fp = 2 * t["workload"]["M"] * t["workload"]["KN"] + t["workload"]["KN"] ** 2
     else:
-        t["workload"].update(A=rng.choice([5, 7, 9]), B=rng.choice([5, 6, 7]), C=rng.choice([3, 5]))
+        t["workload"].update(A=rng.choice([5, 7]), B=rng.choice([5, 6]), C=3)
         w = t["workload"]; fp = w["A"] * w["C"] + w["C"] * w["B"] + w["A"] * w["B"]
     t["glb_size"] = max(3, fp // rng.choice([2, 3, 4])) * t["bits"]
     t["mm_energy"] = rng.choice([50, 100, 200])
+    if small:  # quick tier: imperfect exploration is slow on three levels
+        t["levels"] = 2
     out.append(("imperfect", (t, {}), (copy.deepcopy(t), {"explore_imperfect_temporal_loops": True})))
     return out
 
 
 def work(job):
+    import time as _t
+    _t0 = _t.time()
     name, tight, loose = job
     res = {}
     for side, (params, knobs) in (("tight", tight), ("loose", loose)):
@@ -93,6 +106,7 @@ def work(job):
             if name == "imperfect" and side == "loose":
                 rj = ML.run_mapper(params, [m], knobs=knobs, eval_in_detail=False)
                 res[side][m]["explorer_best"] = ML.best(rj["rows"], m)  # what the tile-shape explorer / joiner believed
+    res["seconds"] = round(_t.time() - _t0, 1)
     return res
 
 
@@ -109,19 +123,20 @@ def run(ctx: Ctx):
     jobs = []
     for _ in range(n_specs):
         base = ML.gen_params(ctx.rng)
-        rel = relaxations(ctx.rng, base)
+        rel = relaxations(ctx.rng, base, small=not ctx.thorough)
         ctx.rng.shuffle(rel)
         jobs += rel[:per_spec]
     if not ctx.thorough:  # make sure every relaxation kind is visited by the quick tier across seeds
         kinds = {j[0] for j in jobs}
         base = ML.gen_params(ctx.rng)
-        jobs += [r for r in relaxations(ctx.rng, base) if r[0] not in kinds][:4]
+        jobs += [r for r in relaxations(ctx.rng, base, small=True) if r[0] not in kinds][:4]
         # the imperfect relaxation is always exercised twice (one matmul, one 3-rank Einsum)
         for kind in ("matmuls", "einsum3"):
             base = ML.gen_params(ctx.rng, kind=kind, n_einsums=1, levels=2)
-            jobs += [r for r in relaxations(ctx.rng, base) if r[0] == "imperfect"]
+            jobs += [r for r in relaxations(ctx.rng, base, small=True) if r[0] == "imperfect"]
     results = ML.pool_map(work, jobs, workers=8)
     drv = ctx.driver()
+    ctx.cov["job_seconds"] = sorted(((res.get("seconds", 0), name, json.dumps(tight[0]["workload"]), tight[0]["levels"]) for (name, tight, loose), res in zip(jobs, results)), reverse=True)[:6]
     for (name, tight, loose), res in zip(jobs, results):
         ctx.dist(name)
         strictly = False
